@@ -374,7 +374,11 @@ pub proof fn lemma_rt_seq_deep<V: RoundTrip>(vs: Seq<V>, pos: nat, rest: Seq<u8>
 //@end
 
 // =========================================================================
-// zero-copy values and sequences (ser/helpers.rs). The memory image of a value
+// zero-copy values and sequences (ser/helpers.rs). (The bound `SerializeInner` of
+// serialize_zero / serialize_zero_unchecked is used only by the removed run-time check
+// and is dropped - recorded replacement -: with it, `[T; N]: SerializeHelper<Zero>` calling
+// serialize_zero::<[T; N]> is a cycle of trait implementations for Verus.)
+// The memory image of a value
 // is uninterpreted (`bytes_of`, `bytes_of_seq`); `core::slice::from_raw_parts`
 // over a pointer cast is outside Verus' reach and is replaced by an assumed
 // function returning that image. What is proved: the length field, the
@@ -405,6 +409,7 @@ pub open spec fn enc_seq_zero<V: MaxSizeOf>(vs: Seq<V>, pos: nat) -> Seq<u8> {
 }
 
 //@item epserde/src/ser/helpers.rs props=C01,C07,C13 name=serialize_zero <<pub fn serialize_zero<V: ZeroCopy + SerializeInner>(>>
+//@  replace <<V: ZeroCopy + SerializeInner>> <<V: ZeroCopy>>
 //@  replace <<ser::Result>> <<SResult>>
 //@  replace <<check_zero_copy::<V>();>> <<>>
 //@  impl_arg
@@ -429,6 +434,7 @@ pub open spec fn enc_seq_zero<V: MaxSizeOf>(vs: Seq<V>, pos: nat) -> Seq<u8> {
 //@end
 
 //@item epserde/src/ser/helpers.rs props=C01,C07,C13 name=serialize_zero_unchecked <<pub fn serialize_zero_unchecked<V: ZeroCopy + SerializeInner>(>>
+//@  replace <<V: ZeroCopy + SerializeInner>> <<V: ZeroCopy>>
 //@  replace <<ser::Result>> <<SResult>>
 //@  replace <<core::slice::from_raw_parts(value as *const V as *const u8, core::mem::size_of::<V>())>> <<assumed_image(value)>>
 //@  impl_arg
